@@ -42,7 +42,7 @@ MAX_FNS = {'np.maximum', 'np.max', 'max', 'np.nanmax', 'np.fmax', 'np.amax'}
 
 def run(ctx: Ctx):
   m = model(ctx)
-  for r in (r1, r2, r3, r4, r5, r6, r7, r10, r11, r12, r13, r14, r15, r17, r18, r19, r20, r23, r24, r25):
+  for r in (r1, r2, r3, r4, r5, r6, r7, r10, r11, r12, r13, r14, r15, r17, r18, r19, r20, r23, r24, r25, r26):
     ctx.guard(r, m)
   ctx.include('R-C01-8', 'merge leaves its operand intact and shares no'
               ' mutable state with it (R-C11-1, R-C11-2): a shard state that'
@@ -1457,11 +1457,49 @@ def r25(ctx: Ctx, m):
   ctx.floor(rule, 1, n)
 
 
+def r26(ctx: Ctx, m):
+  rule = 'R-C01-26'
+  ctx.rule(rule, '"splitting the examples arbitrarily into batches ... same result", whatever the SHAPE of a batch: a mean kept as'
+           ' (total, count) counts exactly the elements it sums. In add(), when a statistic grows by an ALL-element reduction'
+           ' (`np.sum(<f(x)>)` without an axis), the sample counter of the same method grows by `<x>.size` (or len() of a'
+           ' flat value) — not by `<x>.shape[0]`: with a 2-D batch the sum runs over n*m elements but the count over n rows,'
+           ' so the same data fed as one 2-D batch and as 1-D rows gives different means')
+  n = 0
+  for ci in m.accumulators:
+    fi = ci.methods.get('add')
+    if fi is None:
+      continue
+    total_sums = [x for x in walk_no_nested(fi.node) if isinstance(x, ast.AugAssign) and is_self_attr(x.target) and any(
+        isinstance(c, ast.Call) and unparse(c.func) in ('np.sum', 'np.nansum') and kwarg(c, 'axis') is None and len(c.args) == 1
+        for c in ast.walk(x.value))]
+    if not total_sums:
+      continue
+    for x in walk_no_nested(fi.node):
+      if not (isinstance(x, ast.AugAssign) and is_self_attr(x.target) and isinstance(x.op, ast.Add)):
+        continue
+      by_rows = [y for y in ast.walk(x.value) if isinstance(y, ast.Subscript) and isinstance(y.value, ast.Attribute) and y.value.attr == 'shape']
+      by_size = [y for y in ast.walk(x.value) if isinstance(y, ast.Attribute) and y.attr == 'size']
+      if not by_rows and not by_size:
+        continue
+      n += 1
+      what = f'{ci.name}.add: `{unparse(x.target)}` counts the elements the all-element sums run over'
+      if by_rows:
+        ctx.fail(rule, fi, what,
+                 f'`{unparse(x)[:70]}` counts ROWS while `{unparse(total_sums[0])[:50]}` sums over every element: for a 2-D batch the'
+                 ' statistic is divided by n instead of n*m — the value depends on whether the data arrives as 2-D blocks or 1-D rows',
+                 node=x)
+      else:
+        ctx.ok(rule, fi, what, x)
+  ctx.floor(rule, 1, n)
+
+
 from mlmverif.selfcheck import B, OK  # noqa: E402
 
 _R = 'aggregates/rolling_stats.py'
 _C = 'aggregates/classification.py'
 VARIANTS = [
+    B('relative-difference-counts-rows', 'aggregates/rolling_stats.py',
+      "    self.num_samples += x.size\n", "    self.num_samples += x.shape[0] if x.ndim else 1\n", 'R-C01-26'),
     B('sampler-merge-grows-the-longer-list', 'aggregates/rolling_stats.py',
       "    for samples, others in zip(self._samples, other.samples, strict=True):\n      samples.extend(others)\n",
       "    merged = []\n    for samples, others in zip(self._samples, other.samples, strict=True):\n      if len(others) > len(samples):\n        samples, others = list(others), samples\n      samples.extend(others)\n      merged.append(samples)\n    self._samples = tuple(merged)\n", 'R-C01-25'),
